@@ -62,10 +62,20 @@ def circuits(rng):
     return fam, p
 
 
+SAME_UFULL = [("idleherald0", "idleherald1"), ("idleherald1", "idleherald0")]
+
+
 def gen_history(ctx: Ctx, rng, kind: str) -> list:
     steps = []
     names = ["idleherald0", "idleherald1", "plain", "lossy", "heralded_sub", "swap"]
     inputs = [[1, 0, 0], [1, 1, 0], [0, 1, 1], [2, 0, 0], [0, 0, 0], [1, 1, 1], [1, 0, 1]]
+    if rng.random() < 0.35:
+        # directed: two circuits with element-wise equal U_full but different herald photons, with an
+        # observation in between — only a configuration snapshot that includes the heralds tells them apart
+        a, b = rng.choice(SAME_UFULL)
+        obs = rng.choice([["read"], ["sample", rng.randrange(1000)], ["sample_N_outputs", 20, rng.randrange(1000)]])
+        steps += [["input", rng.choice([[1, 0, 0], [1, 1, 0], [0, 1, 1]])], ["circuit", a], ["read"], ["circuit", b], obs]
+        ctx.count("directed:same_U_full_different_heralds")
     for _ in range(rng.randint(4, ctx.n(10, 14))):
         r = rng.random()
         if r < 0.22:
